@@ -160,7 +160,8 @@ def random_cases(draw):
           'fill': draw(st.sampled_from([0, -1.5, 'ff', True, None])), 'keep': draw(st.integers(0, 2 ** 12)), 'sided': draw(st.sampled_from(['leading', 'trailing'])),
           'limit': draw(st.integers(0, 3)), 'forward': draw(st.booleans()), 'skipna': draw(st.booleans())}
     if target == 'frame':
-        rec = draw(gen.frame_recipe(min_rows=0, max_rows=5, min_cols=0, max_cols=5, kinds=KINDS, index_kinds=('auto', 'int', 'str'), column_kinds=('auto', 'str', 'int')))
+        rec = draw(gen.frame_recipe(min_rows=0, max_rows=5, min_cols=0, max_cols=5, kinds=KINDS,
+                                    index_kinds=('auto', 'int', 'str') if op != 'fillna_container' else ('auto', 'int', 'str', 'ih', 'date'), column_kinds=('auto', 'str', 'int')))
     else:
         rec = draw(gen.series_recipe(max_size=7, kinds=KINDS, index_kinds=('auto', 'int', 'str')))
     return dict({'target': target, 'op': op, 'rec': rec}, **ch)
@@ -296,8 +297,15 @@ def check_random(case):
         data = {(i, j): 1000 + i * 10 + j for i in keep_r for j in keep_c}
         xr = _extra_labels(ilr, rec['index']['kind'], case['keep'])
         xc = _extra_labels(clr, rec['columns']['kind'], case['keep'] >> 3)
+        if rec['index']['kind'] in ('ih', 'date'):
+            # a typed or hierarchical row axis: the container's rows are a sub-index of the same class (tree order kept)
+            if f.index.depth > 1:
+                keep_r = sorted(keep_r)
+            oix = f.index.iloc[keep_r]
+        else:
+            oix = [ilr[i] for i in keep_r] + xr
         other = sf.Frame.from_items([(clr[j], [data[(i, j)] for i in keep_r] + [7777] * len(xr)) for j in keep_c] + [(c, [7777] * (len(keep_r) + len(xr))) for c in xc],
-                                    index=[ilr[i] for i in keep_r] + xr)
+                                    index=oix)
         r = lib(lambda: f.fillna(other))
         if isinstance(r, Raised):
             raise Failure('raised:%s' % r.cls, 'fillna(Frame) raised %r' % r.exc, r.where)
